@@ -24,3 +24,29 @@ pub fn violation(property: &str, sig: &str, msg: &str) {
     }
     panic!("VIOLATION {property} {sig} :: {msg}");
 }
+
+// ---- counters, written at process exit to $VERIF_FUZZ_STATS (read by the engine's fuzz stage)
+
+use std::sync::atomic::{AtomicU64, Ordering};
+
+pub const NAMES: [&str; 4] = ["executions", "accepted", "refused", "dont_care"];
+static COUNTS: [AtomicU64; 4] = [AtomicU64::new(0), AtomicU64::new(0), AtomicU64::new(0), AtomicU64::new(0)];
+
+unsafe extern "C" {
+    fn atexit(cb: extern "C" fn()) -> i32;
+}
+
+extern "C" fn dump() {
+    if let Ok(path) = std::env::var("VERIF_FUZZ_STATS") {
+        let body: Vec<String> = NAMES.iter().zip(&COUNTS).map(|(n, c)| format!("\"{n}\": {}", c.load(Ordering::Relaxed))).collect();
+        let _ = std::fs::write(path, format!("{{{}}}", body.join(", ")));
+    }
+}
+
+pub fn count(i: usize) {
+    static ONCE: std::sync::Once = std::sync::Once::new();
+    ONCE.call_once(|| unsafe {
+        atexit(dump);
+    });
+    COUNTS[i].fetch_add(1, Ordering::Relaxed);
+}
